@@ -25,7 +25,7 @@ claim("C09", "Coq theorems on compute_parents / the ancestor walk + exhaustive f
       "Modelled, not verified: compute_parents / is_visible / frame_row models against src/layer.rs and src/file.rs (tied by the exhaustive run).",
       "DESIGN.md section 5, C09")
 claim("C18", "Coq theorems on the raw-buffer model of util.rs (all palette insertion orders) + differential run with the utils feature",
-      "Theorems C18_extrude (dimensions and the clamp formula for every w,h >= 1 image), C18_lookup_transparent / _absent / _present / _last (for every "
+      "Theorems C18_extrude (dimensions and the clamp formula for every w,h >= 1 image), C18_extrude_none_iff (fails exactly on a zero side or a buffer of the wrong length), C18_extrude_interior (interior = input), C18_extrude_edges (border rows / columns repeat their neighbours), C18_extrude_pixels_from_input (no colour is invented), C18_lookup_transparent / _absent / _present / _last (for every "
       "insertion order of the palette entries, which covers the unspecified IntMap iteration order), C18_indexed; the check re-proves them and compares "
       "extrude_border, PaletteMapper::lookup and to_indexed_image of the real crate (release and dev) with the formula and with the model.",
       "Modelled, not verified: image::RgbaImage as a raw row-major buffer; IntMap as a finite map with arbitrary iteration order.",
